@@ -96,6 +96,7 @@ def run(ctx):
     limits.recursion_probe(ctx, "C10")
     limits.declaration_corner_probe(ctx)
     limits.special_key_declaration_probe(ctx)
+    limits.receiver_after_rejection_probe(ctx)
     cases = []
     for _ in range(ctx.n(3000, 30000)):
         facade, ops = GC.gen_chain(ctx.rnd, 4)
